@@ -79,7 +79,25 @@ def c02(r):
     return None
 
 
-RULES = {"C01": c01, "C02": c02}
+def c03(r):
+    d = r["detail"]
+    if "relayout" in d:
+        if d.get("typography") and (("..." in d["out_base"] and "…" in d["out_relayout"]) or ("…" in d["out_base"] and "..." in d["out_relayout"])):
+            return "K-typo-context"
+        if d.get("typography") and re.search(r"[\"'“”‘’]", d["out_base"] + d["out_relayout"]):
+            return "K-typo-context"
+        return None
+    a1, two, direct = d["after_first"], d["two_passes"], d["direct"]
+    if d["first_options"]["semantic"] and not d["target_options"]["semantic"] and re.search(r"[.?]\n[ >]*[-#>=]", a1):
+        return "K-sem"
+    if re.search(r"(%\}|\}\}|-->|#\})(\{%|\{\{|<!--|\{#)", a1 + two + direct) and re.search(r"(%\}|\}\}|-->|#\}) (\{%|\{\{|<!--|\{#)", d["input"]):
+        return "K-tag-space"
+    if "\\" in two and "\\" not in direct:
+        return "K-escape-sticky"
+    return None
+
+
+RULES = {"C01": c01, "C02": c02, "C03": c03}
 
 def assemble():
     import glob
